@@ -5,6 +5,7 @@ package main
 import (
 	"fmt"
 	"os"
+	"time"
 
 	"verif/checks/rtreemc"
 	"verif/mc/report"
@@ -88,7 +89,7 @@ func main() {
 			{"full(2,4)x7+dup5", 7, 2, 4, nil, 80, []int{5}, 0},
 			{"full(2,5)x8", 8, 2, 5, nil, 80, nil, 0},
 			{"full(3,6)x9", 9, 3, 6, nil, 24, []int{0}, 0},
-			{"full(4,8)x11", 11, 4, 8, nil, 16, []int{0}, 0},
+			{"full(4,8)x9", 9, 4, 8, nil, 12, []int{0}, 0},
 			{"scaled-full(2,4)x7", 7, 2, 4, nil, 200, nil, 2},
 			{"seeds(2,4)x13", 13, 2, 4, seedOrders(13), 5, nil, 0},
 			{"spread-seeds(2,4)x13", 13, 2, 4, seedOrders(13), 5, nil, 1},
@@ -111,12 +112,13 @@ func main() {
 			u = rtreemc.NewScaledUniverse(g.nobj, g.min, g.max, g.dups...)
 		}
 		e := &rtreemc.Explorer{U: u, R: r, Seeds: g.seeds, CheckState: rtreemc.CheckC12}
+		t0 := time.Now()
 		st := e.Run(g.depth)
 		r.AddStates(st.States)
 		r.AddTransitions(st.Transitions)
 		d := map[string]interface{}{"regime": g.name, "states": st.States, "transitions": st.Transitions, "max_depth": st.MaxDepth, "closed": st.Closed, "frontiers": st.Frontiers}
 		details = append(details, d)
-		fmt.Printf("  %s: states=%d transitions=%d max_depth=%d closed=%v\n", g.name, st.States, st.Transitions, st.MaxDepth, st.Closed)
+		fmt.Printf("  %s: states=%d transitions=%d max_depth=%d closed=%v %.0fs\n", g.name, st.States, st.Transitions, st.MaxDepth, st.Closed, time.Since(t0).Seconds())
 		if !st.Closed {
 			if r.Expired() {
 				r.Cap("wall budget expired in regime " + g.name)
